@@ -117,7 +117,7 @@ def run(ctx):
     garbage = np.random.default_rng(ctx.seed + 5)
     for _ in range(150 if q else 1500):
         hist = rng.sample(ok_cases, 3)
-        mode = rng.choice(('exact', 'larger', 'shared-largest'))
+        mode = rng.choice(('exact', 'larger', 'much-larger', 'shared-largest'))
         buf = None
         for j, c in enumerate(hist):
             g = geoms[c['gi']]
@@ -132,6 +132,9 @@ def run(ctx):
             elif mode == 'larger':
                 buf = (garbage.normal(size=(g['Kr'] + rng.randint(1, 3), g['Kc'] + rng.randint(1, 3))) * (1 - 2j)).astype(complex)
                 m = 'larger-dirty'
+            elif mode == 'much-larger':
+                buf = (garbage.normal(size=(3 * g['Kr'] + rng.randint(0, 3), 2 * g['Kc'] + rng.randint(1, 4))) - 2j).astype(complex)
+                m = 'much-larger-dirty'
             else:
                 if buf is None:
                     big = max(max(geoms[x['gi']]['Kr'], geoms[x['gi']]['Kc']) for x in hist)
